@@ -101,6 +101,9 @@ pub fn replace_global_security_splits_with_holders(
             non_global_affiliates.push(holder.clone());
         }
     }
+    // The affiliates come out of a HashSet. Sort them, so that the order of the
+    // generated splits (and so of the output rows) does not vary from run to run.
+    non_global_affiliates.sort_by(|a, b| a.id().cmp(b.id()));
 
     // Ensure we have at least the default affiliate. This would be a weird case
     // where the only Txs are splits, but we'll handle it anyway.
